@@ -74,6 +74,8 @@ def random_parents_shaped(rng, n, shape):
 
 
 LARGE_SHAPES = ["uniform", "bushy", "binary", "chainroot", "spine", "broom", "ties", "ternary-chains"]
+LARGE_FULL_TIE = 128      # up to this many nodes every table of a case is tied exactly
+LARGE_TIE_QUICK, LARGE_TIE_THOROUGH = 256, 420     # beyond: judged by the graph-search oracle only
 LARGE_BANDS = [(41, 100), (101, 256), (257, 420), (421, 700), (701, 1200)]
 
 
@@ -321,7 +323,15 @@ class C17(Prop):
             "reset, i.e. an evolution that is continued by a new object; optionally prepared again); for these objects the model is "
             "evaluated on the ordered tree the library holds at that moment (canonicalisation reorders the children of a node; the "
             "rooted tree must stay the one of the case), the BFS oracle always on the tree of the case; malformed: unknown "
-            "identifiers (both sides must reject). non-trivial = at least 3 nodes; distinct by case content")
+            "identifiers (both sides must reject); LARGE trees (4 quick / 30 thorough `large` cases, one per size band 41-100, 101-256, "
+            "257-420, 421-700 and, thorough, 701-1200 nodes in every run; shapes uniform / bushy / binary / root with one child / spine with "
+            "branching side branches / broom / ties / several long arms, depth capped at 110; random identifiers, random attach order): "
+            "38 sampled node pairs and ~8 centres (the root, nodes with the largest subtrees, branching inner nodes, leaves) with all "
+            "queries of the small cases, 4 left-out nodes, and in addition find_subtree_of_node (key set and node identity), "
+            "leaves_under_node, find_subtree_size_of_node and find_path_to_root of EVERY node against graph search; exact model tie up to "
+            "256 (quick) / 420 (thorough) nodes (beyond 128 nodes the distance tables are tied for two centres and the caching path / "
+            "cache keys for update_path[0] only), larger ones are judged by the graph-search oracle alone; further real TTNS+TTNO cases "
+            "(4 quick / 24 thorough) on 10-500 nodes, half of them with a prepared state. non-trivial = at least 3 nodes; distinct by case content")
     clauses = [
         ("F", "linearise: permutation of the nodes, every child before its parent, root last (C17_linearise_perm, _child_before_parent, _root_last)"),
         ("F", "find_path_to_root: starts at the node, ends at the root, consecutive entries child->parent, defined exactly on the nodes "
@@ -344,6 +354,9 @@ class C17(Prop):
         ("V", "exact equality of every modelled query with the implementation on all rooted ordered trees up to the node bound, all node "
               "pairs and centres (lists, dict key orders, update path, caching path, next-id dict, cache key order), plus random trees up "
               "to 40 nodes; independent BFS oracle on the undirected graph; real SandwichCache contraction on TTNS+TTNO"),
+        ("V", "trees with many nodes (up to 700 quick / 1200 thorough, beyond the exhaustive bound and the random trees up to 40): the same "
+              "queries for sampled pairs / centres, and subtree, leaves, subtree size and root path of every node, against elementary graph "
+              "search (BFS oracle); exact model tie up to 256 / 420 nodes"),
         ("V", "the sweep order and the initial environment cache HELD BY TDVP algorithm objects (tdvp.update_path, tdvp.partial_tree_cache), "
               "for every object of a history of several objects in one process and at every start of a sweep (after construction, after "
               "each reset following time steps or runs): update path and cache key order equal the model's update_path / tdvp_cache_keys of "
@@ -492,6 +505,15 @@ class C17(Prop):
         nb = ctx.scale(4, 5)
         for k in range(ctx.scale(4, 30) * budget_scale):
             cases.append(self._large_case(rng, k, nb))
+        # real TTNS + TTNO (real path finder, real cache contraction) on trees with many nodes, half of them prepared
+        bands = [(10, 40), (41, 120), (121, 256), (257, 500)]
+        for k in range(ctx.scale(4, 24) * budget_scale):
+            lo, hi = bands[k % len(bands)]
+            par = random_parents_large(rng, rng.randrange(lo, hi + 1), rng.choice(LARGE_SHAPES), maxdepth=60)
+            c = {"kind": "real", "parents": par, "seed": rng.randrange(10 ** 6)}
+            if rng.random() < 0.5:
+                c["prepare"] = random_prepare(rng, par)
+            cases.append(c)
         return cases
 
     @staticmethod
@@ -550,7 +572,12 @@ class C17(Prop):
     def sample_repr(self, case):
         if case["kind"] == "tdvp":
             return case
-        return {k: v for k, v in case.items() if k not in ("pairs", "centres")} | {"npairs": case.get("pairs") if isinstance(case.get("pairs"), str) else len(case.get("pairs", []))}
+        r = {k: v for k, v in case.items() if k not in ("pairs", "centres")} | {"npairs": case.get("pairs") if isinstance(case.get("pairs"), str) else len(case.get("pairs", []))}
+        if len(case["parents"]) > 40:     # trees with many nodes: size, depth and maximal degree instead of the lists
+            par = case["parents"]
+            r = {k: v for k, v in r.items() if k not in ("parents", "labels", "attach")} | {
+                "nodes": len(par), "depth": max(depth_profile(par)), "max_children": max(collections.Counter(p for p in par if p is not None).values())}
+        return r
 
     # ---------------------------------------------------------------------------------------
     @staticmethod
@@ -849,10 +876,15 @@ class C17(Prop):
         def tabv(key, f):   # queries the model answers without an error channel
             return coq_list(cen, lambda x: f"({cn(x)}, {f(per[str(x)][key]['ok'])})")
         known = [x for x in cen if "ok" in per[str(x)]["children"]]
+        # (trees with many nodes: the expected values are literals with unary identifiers, whose elaboration dominates the
+        #  evaluation; the exact tie of the longest tables is restricted to a prefix — two centres for the distance dicts, the
+        #  first left-out node = update_path[0] for the caching path and the cache keys; the oracle judges all of them)
+        big = len(case["parents"]) > LARGE_FULL_TIE
         parts = []
         parts.append(f"linearise {t}")
         parts.append(f"mism (path_to_root {t}) (oeqb lneq) {tab('to_root', cl)}")
-        parts.append(f"mism (distance_to_node {t}) (oeqb lpeq) {tab('dist', cpairs)}")
+        parts.append(f"mism (distance_to_node {t}) (oeqb lpeq) " +
+                     coq_list(cen[:2] if big else cen, lambda x: f"({cn(x)}, {E(per[str(x)]['dist'], cpairs)})"))
         parts.append(f"mism (subtree_nodes {t}) (oeqb lneq) {tab('subtree', cl)}")
         parts.append(f"mism (leaves_under {t}) (oeqb lneq) {tab('leaves', cl)}")
         parts.append(f"mism (subtree_size {t}) (oeqb Nat.eqb) {tab('size', cn)}")
@@ -866,7 +898,7 @@ class C17(Prop):
         prs = coq_list(list(zip(ob["pairs"], ob["paths"])), lambda pr: f"(({cn(pr[0][0])}, {cn(pr[0][1])}), {E(pr[1], cl)})")
         parts.append(f"mism (fun ab => path_from_to {t} (fst ab) (snd ab)) (oeqb lneq) {prs}")
         parts.append(f"(start_node {t}, main_path {t}, update_path {t})")
-        lo = ob["cache_order"]
+        lo = ob["cache_order"][:1] if big else ob["cache_order"]
         cache = ob["cache"]
         parts.append("mism (find_caching_path %s) (oeqb cseq) %s" % (t, coq_list(lo, lambda x: "(%s, %s)" % (
             cn(x), E(cache[str(x)]["caching"], lambda v: f"({cl(v[0])}, {cpairs(v[1])})")))))
@@ -922,6 +954,8 @@ class C17(Prop):
             if c["kind"] == "tdvp":      # tiny expressions: ten histories per evaluated expression (fewer coqc start-ups)
                 small.append(i)
                 continue
+            if c["kind"] in ("large", "real") and len(c["parents"]) > ctx.scale(LARGE_TIE_QUICK, LARGE_TIE_THOROUGH):
+                continue                 # oracle only (the model needs a minute per tree of this size: unary identifiers)
             exprs.append(self._model_expr(c, ob))
             idx.append(i)
         plain = [i for i in small if not self._special_case(cases[i])]
@@ -931,12 +965,17 @@ class C17(Prop):
         gexprs = ["[" + "; ".join(self._model_expr(cases[i], obs[i]) for i in g) + "]" for g in groups]
         # the files are evaluated in parallel, twelve expressions each: one (heavy) group expression per file
         SH = 12
-        layout, rest, gi = [], list(range(len(exprs))), 0
-        while rest or gi < len(groups):
+        # (the expressions of trees with many nodes are heavy too: they go first, one per file)
+        is_heavy = lambda k: cases[idx[k]]["kind"] == "large" or len(cases[idx[k]]["parents"]) > 100
+        heavy = [("e", k) for k in range(len(exprs)) if is_heavy(k)]
+        heavy.sort(key=lambda wk: -len(cases[idx[wk[1]]]["parents"]))
+        rest = [k for k in range(len(exprs)) if not is_heavy(k)]
+        heavy += [("g", gi) for gi in range(len(groups))]
+        layout = []
+        while rest or heavy:
             take = SH
-            if gi < len(groups):
-                layout.append(("g", gi))
-                gi += 1
+            if heavy:
+                layout.append(heavy.pop(0))
                 take -= 1
             layout += [("e", k) for k in rest[:take]]
             rest = rest[take:]
@@ -1193,6 +1232,9 @@ class C17(Prop):
                         ds.add(v)
                         stack.append(v)
             if sorted(pr["subtree"]["ok"]) != sorted(ds):
+                if len(ds) > 60:
+                    return (f"find_subtree_of_node({x}) on a tree with {len(nodes)} nodes returns {len(pr['subtree']['ok'])} nodes "
+                            f"({pr['subtree']['ok'][:12]}...), graph search finds {len(ds)} (missing e.g. {sorted(ds - set(pr['subtree']['ok']))[:8]})")
                 return f"find_subtree_of_node({x}) = {pr['subtree']['ok']}, expected {sorted(ds)}"
             lv = sorted(y for y in ds if all(v == parent.get(y) for v in adj[y]))
             if sorted(pr["leaves"]["ok"]) != lv:
